@@ -5,6 +5,12 @@ import json, subprocess, sys
 
 CLAIMED = {
  # id: (engine kind, what is enumerated, technique)
+ "C04": ("E1 breadth-first history exploration",
+         "all well-formed histories of <= 6 (quick) / <= 8 (thorough, wall-capped) scope operations from 16 operations (x := k, x = k, print(x), open block / fn f / fn g / while / for, close, f(), g(), return a closure that reads and writes x, h = f(), h(), h = closure, guarded recursion); each program is completed by reading x at every open level and calling what was defined; dead states are not expanded; oracle = reference interpreter with linked environments (stdout and termination class); vacuity guards: closure outlives its scope, late declaration seen by an earlier function, recursion, per-iteration redeclaration",
+         "explicit-state breadth-first exploration of operation histories on the real interpreter against a reference model"),
+ "C05": ("E1 breadth-first history exploration with heap-isomorphism deduplication",
+         "all histories of <= 4 (quick) / <= 6 (thorough) operations from 52 alias / copy / mutate / value operations over a, b, c, o; states merged when the reference heaps reachable from the variables are isomorphic; after every history every variable is printed and `===` is evaluated between all pairs of container values reachable to depth 2; oracle = reference store (addresses)",
+         "explicit-state breadth-first exploration with canonical-state deduplication on the real interpreter against a reference store"),
  "C06": ("E2 product (complete over the grid)",
          "every ordered pair of a boundary grid of 64-bit integers (all +-2^k, +-(2^k+-1), sqrt(2^63) neighbours, extremes; 105 values quick / ~700 thorough) x {+ - * / %} x 6 forms (expression, op-assign on variable / element / property in two spellings, x = x op y), 6 comparisons, the division identity, every `_` placement (<=2) in every non-negative grid literal with and without `-`, too-large literals in 7 contexts, ranges a .. a+d; oracle = i128 arithmetic and the diagnostic clause of the statement",
          "exhaustive enumeration of a finite product space on the real interpreter against exact (i128) arithmetic"),
